@@ -508,7 +508,10 @@ impl<'a> ByteReader for ReadAdapter<'a> {
         // this will return an error if we hit EOF first
         self.buffer_at_least(len)?;
 
-        Ok(&self.buffer()[0..len])
+        // hand out the next `len` unread bytes and advance past them
+        let start = self.pos;
+        self.pos += len;
+        Ok(&self.buf[start..start + len])
     }
 
     #[inline]
